@@ -31,6 +31,15 @@ Accept(kind, form) ==
 Select(q, mask, isnan, qmin, qmax) ==
     SelectSeq([k \in 1..Len(q) |-> k], LAMBDA k : q[k] >= qmin /\ q[k] <= qmax /\ mask[k] = 0 /\ ~isnan[k])
 
+\* per interface: keyword interfaces know only the keyword scheme, the SasView wrapper only the dotted one;
+\* a structure factor's scale and background are hidden from the SasView wrapper (fixed at 1 and 0)
+Ifaces == {"kernel", "direct", "keyword", "bumps", "sasview"}
+AcceptOn(iface, kind, form, hidden) ==
+    IF iface = "sasview"
+    THEN (IF form = "bare" THEN ~(hidden /\ kind \in {"scale", "background"})
+          ELSE ~KeywordForm(form) /\ Accept(kind, form))
+    ELSE KeywordForm(form) /\ Accept(kind, form)
+
 VARIABLES kind, form, answer
 Init == kind \in Kinds /\ form \in Forms /\ answer = "pending"
 Returns == answer = "pending" /\ Accept(kind, form) /\ answer' = "returned" /\ UNCHANGED <<kind, form>>
